@@ -177,7 +177,8 @@ RETCODE adfReadBitmap ( struct AdfVolume * const        vol,
 BOOL adfIsBlockFree ( const struct AdfVolume * const vol,
                       const SECTNUM nSect )
 {
-    assert ( nSect >= 2 );
+    if ( nSect < 2 || ! isSectNumValid ( vol, nSect ) )
+        return FALSE;
     int sectOfMap = nSect-2;
     int block = sectOfMap/(127*32);
     int indexInMap = (sectOfMap/32)%127;
@@ -201,6 +202,12 @@ void adfSetBlockFree ( struct AdfVolume * const vol,
                        const SECTNUM            nSect )
 {
     uint32_t oldValue;
+    /* block numbers come from on-disk structures too: nothing outside the
+       bitmap of this volume is touched */
+    if ( nSect < 2 || ! isSectNumValid ( vol, nSect ) ) {
+        adfEnv.wFct ( "adfSetBlockFree : block %d out of range", nSect );
+        return;
+    }
     int sectOfMap = nSect-2;
     int block = sectOfMap/(127*32);
     int indexInMap = (sectOfMap/32)%127;
@@ -227,6 +234,12 @@ void adfSetBlockUsed ( struct AdfVolume * const vol,
                        const SECTNUM            nSect )
 {
     uint32_t oldValue;
+    /* block numbers come from on-disk structures too: nothing outside the
+       bitmap of this volume is touched */
+    if ( nSect < 2 || ! isSectNumValid ( vol, nSect ) ) {
+        adfEnv.wFct ( "adfSetBlockUsed : block %d out of range", nSect );
+        return;
+    }
     int sectOfMap = nSect-2;
     int block = sectOfMap/(127*32);
     int indexInMap = (sectOfMap/32)%127;
